@@ -21,11 +21,6 @@ impl Regex {
             .build()?;
         let (fixed_prefix, max_suffix_len) = Self::get_fixed_prefix(re);
         let fixed_prefix_len = fixed_prefix.chars().count();
-        let fixed_prefix = if case_insensitive {
-            fixed_prefix.to_lowercase()
-        } else {
-            fixed_prefix
-        };
         Ok(Regex {
             regex,
             fixed_prefix,
@@ -55,15 +50,25 @@ impl Regex {
                 return false;
             }
         }
-        let lowercase;
-        let s = if self.case_insensitive {
-            lowercase = s.to_lowercase();
-            lowercase.as_str()
-        } else {
-            s
-        };
         // the shorter of the two must be a prefix of the other, compared by characters
-        self.fixed_prefix.chars().zip(s.chars()).all(|(a, b)| a == b)
+        let case_insensitive = self.case_insensitive;
+        self.fixed_prefix
+            .chars()
+            .zip(s.chars())
+            .all(|(a, b)| a == b || (case_insensitive && Self::may_differ_by_case_only(a, b)))
+    }
+
+    /// Returns true if the two characters may be taken for equal by a case-insensitive regex.
+    /// Characters are compared one by one, because lower-casing whole strings depends
+    /// on the context (Greek final sigma) and may change the number of characters.
+    /// Never returns false for characters the regex engine folds together, e.g. `σ` and `ς`.
+    fn may_differ_by_case_only(a: char, b: char) -> bool {
+        fn fold(c: char) -> String {
+            c.to_uppercase().flat_map(char::to_lowercase).collect()
+        }
+        a.to_lowercase().eq(b.to_lowercase())
+            || a.to_uppercase().eq(b.to_uppercase())
+            || fold(a) == fold(b)
     }
 
     /// Returns the initial fragment of the regex string that always matches
